@@ -183,7 +183,8 @@ func inputsOf(ob *Obj) (closed, open clip.Paths64) {
 	for _, a := range ob.adds {
 		var p clip.Paths64
 		if a.isD {
-			p = toInt(a.pd, scale)
+			// exactly what the engine was given: the library's own conversion
+			p = clip.ScalePathsDToPaths64(a.pd, scale)
 		} else {
 			p = a.p64
 		}
@@ -194,6 +195,33 @@ func inputsOf(ob *Obj) (closed, open clip.Paths64) {
 		}
 	}
 	return
+}
+
+// distinctY reports whether all vertices of all input paths of the engine
+// (consecutive duplicates aside) have pairwise distinct Y. Then no two local
+// minima tie, the sweep processes them in one possible order whatever the
+// order of the AddPaths calls was, and an engine with a history must be
+// bit-identical to a fresh one.
+func distinctY(ob *Obj) bool {
+	inC, inO := inputsOf(ob)
+	seen := map[int64]bool{}
+	for _, ps := range []clip.Paths64{inC, inO} {
+		for _, p := range ps {
+			for i, pt := range p {
+				if i > 0 && pt == p[i-1] {
+					continue
+				}
+				if i == len(p)-1 && len(p) > 1 && pt == p[0] {
+					continue
+				}
+				if seen[pt.Y] {
+					return false
+				}
+				seen[pt.Y] = true
+			}
+		}
+	}
+	return true
 }
 
 // symptomOf classifies how an observed outcome differs from the expected one.
@@ -349,9 +377,9 @@ func (c *Ctx) judgeC12(ob *Obj, op *Op, obs *Outcome) {
 		}
 		// the symptom names a property of the INPUT that the finding depends
 		// on, so that a listed finding stays specific
-		suffix := ""
+		suffix := "+tied-minima" // this tier is only used when input vertices share a Y
 		if coincidentEdges(inC) {
-			suffix = "+coincident-input-edges"
+			suffix += "+coincident-input-edges"
 		}
 		if d, n := regionDiff(a, b, inC, inO, uint64(c.opIndex)+1); d != "" {
 			report(tier, ref, "region-differs"+suffix, d)
@@ -375,9 +403,19 @@ func (c *Ctx) judgeC12(ob *Obj, op *Op, obs *Outcome) {
 		c.st.RefDiverge++
 		return
 	}
-	if !isEngine || !ob.addAfterExec {
+	unique := false
+	if isEngine && (ob.addAfterExec || op.has("ref-onecall")) {
+		unique = distinctY(ob)
+		if unique {
+			c.probe("history with pairwise distinct vertex Y (bit-identity required after adds)")
+		}
+	}
+	switch {
+	case !isEngine || !ob.addAfterExec:
 		exact("EXACT/same-calls", &ref)
-	} else {
+	case unique:
+		exact("EXACT/add-after-exec/distinct-Y", &ref)
+	default:
 		field("FIELD/add-after-exec", &ref)
 	}
 	if isEngine && op.has("ref-merged") && !ob.addAfterExec {
@@ -390,7 +428,11 @@ func (c *Ctx) judgeC12(ob *Obj, op *Op, obs *Outcome) {
 	if isEngine && op.has("ref-onecall") {
 		r3 := c.reference(ob, op, refOneCall)
 		if !r3.Diverged {
-			field("FIELD/one-call-per-kind", &r3)
+			if unique {
+				exact("EXACT/one-call-per-kind/distinct-Y", &r3)
+			} else {
+				field("FIELD/one-call-per-kind", &r3)
+			}
 			c.fire("add-reorder")
 		}
 	}
